@@ -72,6 +72,32 @@ CHECKS = {
                     "pair and compared with the truth table. A green run means admission equals the table for every combination."),
         level_note="Trusts crypto/tls and crypto/x509; certificates are generated by the harness.",
     ),
+    "C06": dict(
+        pkg="c06",
+        level="exploration",
+        technique="grammar-based property testing (rapid) of both handshake roles over an in-memory carrier with generated segmentation: reference-model + metamorphic (segmentation invariance) oracles; native fuzzing in thorough",
+        rule=("case = (role, byte script, two segmentations). Scripts come from a grammar: VALID by construction (method, version "
+              "list with the supported version among others in any position/spacing, header-name case variants, extra headers, "
+              "CRLF or LF, optional pipelined payload), INVALID by exactly one named mutation (wrong/re-cased method, no common "
+              "version, missing version header, upgrade method, Connection missing/wrong, Upgrade token wrong/missing/other "
+              "version, truncation at a drawn offset, header without colon, request/status line with too few spaces, non-200/101 "
+              "statuses, StartTLS requested/advertised without a TLS hello following), GARBAGE (random bytes, byte-level "
+              "mutations of valid scripts, 4 KiB-1 MiB lines, repeated requests). Each script is delivered with two independent "
+              "segmentations (coalesced, 1-byte trickle, random cuts), one segment per Read. Oracle: (1) reference model: VALID "
+              "=> session, server statuses 200,101, pipelined bytes readable unmodified; INVALID => no session and an error "
+              "status from {400,405,406,409,503} or a close; (2) identical outcome (established, statuses, leftover bytes) under "
+              "both segmentations for every class; (3) no panic, termination once input is exhausted. non-trivial = INVALID or "
+              "GARBAGE script, or VALID with >=2 segments or pipelined bytes"),
+        assumptions=["GARBAGE scripts are judged by segmentation invariance, no-crash and termination only (no expectation about exotic-but-legal MIME syntax)"],
+        quick=dict(run="^Test", checks=4000, timeout=600),
+        thorough=dict(run="^Test", checks=60000, timeout=3000, shards=8),
+        fuzz=[dict(name="FuzzServerHandshake", time="120s"), dict(name="FuzzClientHandshake", time="120s")],
+        design_ref="DESIGN.md 2/C06",
+        level_text=("Grammar-generated handshake scripts for both roles against the real handshake code through an in-memory carrier "
+                    "that controls read segmentation. A green run means the model agreed on every VALID/INVALID script, the outcome "
+                    "never depended on segmentation, and nothing crashed or hung."),
+        level_note="The reference model is ~40 lines written from the README/property; byte-level fuzzing only checks invariance/no-crash.",
+    ),
     "C08": dict(
         pkg="c08",
         level="exploration",
